@@ -6,6 +6,7 @@ import (
 	"fmt"
 	"net"
 	"strings"
+	"sync"
 	"testing"
 	"time"
 
@@ -494,4 +495,91 @@ func TestSequenceWrap(t *testing.T) {
 	if d := vlib.FirstDiff(tn.downRead, down); d != -1 {
 		fail(fmt.Sprintf("client read %d bytes, server writes accepted %d; first difference at byte %d (packet %d)", len(tn.downRead), len(down), d, d/int(frag)))
 	}
+}
+
+// ---- layer B: the full stack with Handshake() and its background poll goroutine --------------------------------------
+
+// TestPollerLossyPath runs the real Handshake() (which starts the client's own poll loop) over the simulated path and
+// then applies a pre-drawn list of fates, consumed in exchange order under a mutex, while data moves both ways.
+func TestPollerLossyPath(t *testing.T) {
+	rapid.Check(t, func(rt *rapid.T) {
+		nf := rapid.IntRange(20, 400).Draw(rt, "fates")
+		isolated := rapid.Bool().Draw(rt, "isolatedOnly")
+		percent := rapid.IntRange(1, 35).Draw(rt, "faultPercent")
+		fates := make([]fate, nf)
+		faults := 0
+		for i := range fates {
+			if rapid.IntRange(0, 99).Draw(rt, "roll") < percent {
+				fates[i] = fate(rapid.IntRange(1, 4).Draw(rt, "fate"))
+			}
+			lossy := func(f fate) bool { return f == fateQueryLost || f == fateAnswerLost }
+			if isolated && i > 0 && lossy(fates[i]) && lossy(fates[i-1]) {
+				fates[i] = fateDelivered
+			}
+			if fates[i] != fateDelivered {
+				faults++
+			}
+		}
+		sizes := []int{rapid.IntRange(1, 3000).Draw(rt, "size1"), rapid.IntRange(1, 9000).Draw(rt, "size2")}
+
+		ss := &simServer{}
+		srv := NewServerDnsListener("example.org", ss)
+		defer srv.Close()
+		comm := newSimClient(ss, &net.UDPAddr{IP: net.IPv4(10, 0, 0, 7), Port: 4007})
+		client, err := NewClientDnsConnection("example.org", comm)
+		if err != nil {
+			rt.Fatalf("client: %v", err)
+		}
+		if err := client.Handshake(); err != nil {
+			rt.Fatalf("handshake over a transparent path failed: %v", err)
+		}
+		defer func() {
+			comm.nextFate = nil
+			done := make(chan struct{})
+			go func() { defer close(done); client.Close() }()
+			select {
+			case <-done:
+			case <-time.After(5 * time.Second):
+				comm.closed = true
+			}
+		}()
+		c, err := srv.Accept()
+		if err != nil {
+			rt.Fatalf("accept: %v", err)
+		}
+		user := c.(*userConnection)
+		var mu sync.Mutex
+		idx := 0
+		comm.replayAge = func(n int) int { return 1 + (idx*7)%n }
+		comm.nextFate = func(q *mdns.Msg) fate {
+			mu.Lock()
+			defer mu.Unlock()
+			if idx >= len(fates) {
+				return fateDelivered
+			}
+			f := fates[idx]
+			idx++
+			return f
+		}
+		desc := map[string]interface{}{"fates": nf, "faults": faults, "isolated_only": isolated, "sizes": sizes}
+		fail := func(msg string) {
+			vlib.Rec.Violation(map[string]interface{}{"property": "C07", "layer": "B", "case": desc, "problem": msg})
+			rt.Fatalf("C07 layer B %v: %s", desc, msg)
+		}
+		for i, n := range sizes {
+			up := vlib.PRF(uint64(50+i), 0, n)
+			down := vlib.PRF(uint64(60+i), 0, n)
+			msg := exchange(client, user, up, down, 40*time.Second)
+			if msg != "" {
+				if isolated || strings.Contains(msg, "different bytes") || strings.Contains(msg, "not complete") {
+					// isolated losses must be absorbed; corruption or a hang is never acceptable
+					fail(fmt.Sprintf("transfer %d (%d bytes each way): %s", i, n, msg))
+				}
+				// burst losses may legitimately fail a write; the streams must stay prefixes (checked by exchange's
+				// content comparison on what did arrive) - nothing more to judge in this history
+				break
+			}
+		}
+		vlib.Rec.Case(fmt.Sprintf("layerB|%v|%v", fates, sizes), faults > 0, []string{"layer-b", fmt.Sprintf("isolated:%v", isolated)}, func() interface{} { return desc })
+	})
 }
